@@ -316,6 +316,17 @@ class IRGen:
                 r = rng.random()
                 if r < 0.7:
                     t, s = ir.TensorType(tensor.dtype), ir.Shape(list(tensor.shape.numpy()))
+                    # separate stream (recorded gen_seeds unchanged): an entry that restates the tensor's dtype and
+                    # dims but carries a type denotation / dimension denotations (seeded C03-r1: TensorType.__eq__ and
+                    # Shape.__eq__ ignore denotations, so a "redundant entry" test on == drops them)
+                    rng3 = random.Random(f"den-{self.k}-{name}")
+                    if rng3.random() < 0.3:
+                        if rng3.random() < 0.6:
+                            t = ir.TensorType(tensor.dtype, denotation=rng3.choice(["IMAGE", "TENSOR"]))
+                            self.note("initializer_type_denotation")
+                        if len(s) and rng3.random() < 0.7:
+                            s = ir.Shape(list(s.numpy()), denotations=[rng3.choice([None, "FILTER_OUT_CHANNEL"]) for _ in range(len(s))])
+                            self.note("initializer_dim_denotations")
                 elif r < 0.85:
                     t, s = self.type_shape()
                 else:
